@@ -40,7 +40,7 @@ func runC09(c *Ctx) {
 			ManyDecimals: r.Chance(1, 2), Mutate: r.Chance(1, 12), Accruals: r.Chance(1, 3)}
 		if r.Chance(1, 2) {
 			o.Prices, o.Valuation, o.DupPrices = true, "CHF", true
-			o.LongPrices, o.ChainPrices = r.Chance(1, 2), r.Chance(1, 2)
+			o.LongPrices, o.ChainPrices, o.ManyPricesPerDay = r.Chance(1, 2), r.Chance(1, 2), r.Chance(1, 2)
 		}
 		o.CaseVariants = true
 		j, tags := GenJournal(r, o)
